@@ -22,6 +22,7 @@ ASSUMPTIONS = ["process-wide state that could leak (block tracker, config caches
 BOUND = {"quick": "20 ops: all 420 histories of length <= 2", "thorough": "all 8420 histories of length <= 3"}
 FLOOR = {"quick": 300, "thorough": 6000}
 CHUNK = 1
+TIMEOUT = 900  # per case; fresh child processes are slow when the machine is loaded
 
 FILES = {
     "plain.sql": "SELECT a  from t -- noqa: CP01\nSELECT b  FROM u\n",
